@@ -164,6 +164,35 @@ def same(a, b, tol, path="", out=None):
 
 
 # ----------------------------------------------------------------------------------------------- the world
+LAYOUTS = ("C", "F", "S", "1")
+
+
+def lay(arr, layout):
+    """a private copy of the record in one memory layout.  Returns (array handed to SingleSetup, buffer owning it):
+    C = C-ordered (N, n_ch); F = column-major: a (n_ch, N) file record passed as raw.T; S = non-contiguous strided view
+    (every second column of a wider buffer); 1 = single channel (N, 1), whose transpose is contiguous too."""
+    if layout == "F":
+        raw = np.ascontiguousarray(arr.T)
+        return raw.T, raw
+    if layout == "S":
+        big = np.full((arr.shape[0], 2 * arr.shape[1]), 7.0)
+        big[:, ::2] = arr
+        return big[:, ::2], big
+    if layout == "1":
+        a = arr[:, :1].copy()
+        return a, a
+    a = arr.copy()
+    return a, a
+
+
+def eff_layout(version, layout):
+    """SciPy's decimate / detrend return the same values in the same layout whatever the layout of their input (checked
+    below in run()), so only the record itself and its replacement carry the layout"""
+    if layout in ("F", "S") and version not in ((), ("new",)):
+        return "C"
+    return layout
+
+
 class World:
     """base records, data versions (computed with SciPy directly, never through pyoma2) and isolated reference runs"""
 
@@ -172,68 +201,78 @@ class World:
         self.vcache = {}
         self.refs = {}
 
-    def vdata(self, version):
-        if version not in self.vcache:
-            if not version:
-                r = (self.base, FS)
-            else:
-                x, fs, _ = self.vdata(version[:-1])
-                kind = version[-1]
-                if kind == "dec":
-                    r = (signal.decimate(x, 2, axis=0), fs / 2)
-                elif kind == "det":
-                    r = (signal.detrend(x, axis=0), fs)
-                else:
-                    r = (self.base2, FS)
-            self.vcache[version] = (r[0], r[1], dg(r[0]))
-        return self.vcache[version]
+    def vdata(self, version, layout="C"):
+        key = (version, eff_layout(version, layout))
+        if key not in self.vcache:
+            x = self.fresh(version, layout)
+            fs = FS / 2 ** sum(1 for kind in version if kind == "dec")
+            self.vcache[key] = (x, fs, dg(x))
+        return self.vcache[key]
 
-    def fresh(self, version):
+    def fresh(self, version, layout="C"):
         """the data version recomputed from a private copy of the base record: same values AND same memory layout as the
         array the setup holds after the same preprocessing calls (decimate returns a strided view)"""
-        x = self.base.copy()
+        x = lay(self.base, layout)[0]
         for kind in version:
             if kind == "dec":
                 x = signal.decimate(x, 2, axis=0)
             elif kind == "det":
                 x = signal.detrend(x, axis=0)
             else:
-                x = self.base2.copy()
+                x = lay(self.base2, layout)[0]
         return x
 
-    def iso(self, cn, k, version, j=None, contig=False):
+    def iso(self, cn, k, version, j=None, contig=False, layout="C", watch=None):
         """an isolated run: fresh setup holding a private copy of that data version, one fresh algorithm"""
-        x, fs = self.fresh(version), self.vdata(version)[1]
+        x, fs = self.fresh(version, layout), self.vdata(version, layout)[1]
         if contig:  # the layout the same values have after a pickle round trip
             x = np.ascontiguousarray(x).copy()
+        before = dg(x)
         ss = SingleSetup(x, fs=fs)
         alg = CLASSES[cn](name="iso", **copy.deepcopy(PARAMS[cn][k]))
         ss.add_algorithms(alg)
         ss.run_by_name("iso")
+        if watch is not None and (dg(x) != before or dg(ss.data) != before):
+            watch.append("run")
         if j is not None:
             ss.mpe("iso", **copy.deepcopy(MPE[cn][j]))
+            if watch is not None and (dg(x) != before or dg(ss.data) != before) and not watch:
+                watch.append("mpe")
         return alg
 
-    def ref(self, cn, k, version):
+    def ref(self, cn, k, version, layout="C"):
         """isolated reference results.  BLAS results depend in the last bits on the memory layout of the input, so one
-        variant per layout the same data can have (as produced by SciPy | C-contiguous after save+load)."""
-        key = (cn, k, version)
+        variant per layout the same data can have (as held by the setup | after save+load: C-contiguous, F stays F)."""
+        layout = eff_layout(version, layout)
+        key = (cn, k, version, layout)
         if key not in self.refs:
-            r = {"variants": [], "usable": True, "why": None, "repro": True}
+            r = {"variants": [], "usable": True, "why": None, "repro": True, "modified": None}
             try:
-                layouts = [False] if self.vdata(version)[0].flags.c_contiguous else [False, True]
-                for contig in layouts:
-                    a1 = self.iso(cn, k, version, contig=contig)
-                    a1b = self.iso(cn, k, version, contig=contig)
+                kinds = [(layout, False)]
+                if layout == "S":
+                    kinds.append(("C", False))
+                elif not self.vdata(version, layout)[0].flags.c_contiguous and layout != "F":
+                    kinds.append((layout, True))
+                for lay_, contig in kinds:
+                    watch = []
+                    a1 = self.iso(cn, k, version, contig=contig, layout=lay_, watch=watch)
+                    a1b = self.iso(cn, k, version, contig=contig, layout=lay_)
                     v = dict(R1=a1.result, d1=dg(a1.result), mpe={})
                     repro = v["d1"] == dg(a1b.result)
                     r["repro"] = r["repro"] and repro
                     v["tol"] = 0.0 if repro else 1e-12
                     r.setdefault("rp0", {f: dg(x) for f, x in vars(a1.run_params).items()})
                     for j in range(len(MPE[cn])):
-                        a2 = self.iso(cn, k, version, j, contig=contig)
+                        try:
+                            a2 = self.iso(cn, k, version, j, contig=contig, layout=lay_, watch=watch)
+                        except Exception:  # noqa: BLE001
+                            if layout != "1":
+                                raise
+                            continue  # single channel: the classes that run cannot extract modes; mpe is not called there
                         v["mpe"][j] = dict(R2=a2.result, d2=dg(a2.result))
                         r.setdefault("rp2", {})[j] = {f: dg(x) for f, x in vars(a2.run_params).items()}
+                    if watch:
+                        r["modified"] = watch[0]
                     r["variants"].append(v)
             except Exception as e:  # a reference that cannot be computed: histories needing it are not judged
                 r["usable"], r["why"] = False, "%s: %s" % (type(e).__name__, str(e)[:100])
@@ -327,8 +366,8 @@ def new_alg(lineup, i):
     return CLASSES[cn](name="a%d" % i, **copy.deepcopy(PARAMS[cn][k]))
 
 
-def snapshot(ss):
-    snap = {"__data": dg(ss.data), "__fs": ss.fs, "__order": list(ss.algorithms)}
+def snapshot(ss, user=None):
+    snap = {"__data": dg(ss.data), "__fs": ss.fs, "__order": list(ss.algorithms), "__user": None if user is None else (dg(user[0]), dg(user[1]))}
     for name, alg in ss.algorithms.items():
         snap[name] = (type(alg).__name__, dg(alg.run_params), dg(getattr(alg, "data", None)), getattr(alg, "fs", None),
                       getattr(alg, "dt", None), dg(alg.result))
@@ -345,8 +384,10 @@ def execute(job):
     def fail(kind, key, what, **extra):
         fails.append(dict(kind=kind, key="C15:" + key, what=what, case=dict(case, **extra)))
 
-    user_arr = W.base.copy()
-    user_dg = dg(user_arr)
+    layout = job.get("layout", "C")
+    case["layout"] = layout
+    user_arr, owner = lay(W.base, layout)  # what the user hands over, and the buffer behind it
+    user_dg = (dg(user_arr), dg(owner))
     ss = SingleSetup(user_arr, fs=FS)
     path = os.path.join(job["tmp"], "c15_%d.pkl" % os.getpid())
     # ---- oracle bookkeeping (property text): name -> what was handed over at add time, has it run, are modes there
@@ -358,7 +399,7 @@ def execute(job):
     for n, op in enumerate(conc):
         kind = op[0]
         check = n >= nstart
-        before = snapshot(ss) if check else None
+        before = snapshot(ss, (user_arr, owner)) if check else None
         exc = None
         try:
             if kind == "add":
@@ -381,7 +422,7 @@ def execute(job):
                 else:
                     ss.detrend_data()
             elif kind == "newdata":
-                ss.data = W.base2.copy()
+                ss.data = lay(W.base2, layout)[0]
                 ss.fs = FS
             elif kind == "nodata":
                 ss.data = None
@@ -448,7 +489,7 @@ def execute(job):
             what = ("run without data / fs / run parameters" if kind in ("run", "runall") else "mpe without a prior run")
             fail("oracle", "%s:gate-not-raised" % kind, "%s did not raise (%s)" % (kind, what), call=n)
         if check:
-            after = snapshot(ss)
+            after = snapshot(ss, (user_arr, owner))
             if exc is not None and kind != "runall" and after != before:
                 diff = [k for k in after if after.get(k) != before.get(k)]
                 fail("oracle", "%s:stored-on-exception" % kind,
@@ -466,6 +507,8 @@ def execute(job):
                          % (kind, nm, before[nm], after.get(nm)), call=n)
             if kind not in ("rebind", "newdata", "nodata", "nofs") and (after["__data"] != before["__data"] or after["__fs"] != before["__fs"]):
                 fail("oracle", "%s:shared-data" % kind, "%s modified the setup's shared data array or fs" % kind, call=n)
+            if after["__user"] != before["__user"]:
+                fail("oracle", "%s:user-array" % kind, "%s modified the array the user handed to SingleSetup (memory layout %s)" % (kind, layout), call=n)
             if kind == "saveload" and exc is None and after != before:
                 diff = [k for k in after if after.get(k) != before.get(k)]
                 fail("oracle", "saveload:not-equal", "the loaded setup differs from the saved one in %s" % diff, call=n)
@@ -476,22 +519,28 @@ def execute(job):
     # ---- final state: abstraction to the model's vocabulary + property text on it
     vtab = {}
     for v in seen_versions:
-        vtab[W.vdata(v)[2]] = v
+        vtab[W.vdata(v, layout)[2]] = v
     table, cands = {}, []
     for (cn, k, j) in {(e[0], e[1], e[2]) for e in lineup if e[1] is not None}:
         for v in seen_versions:
-            r = W.ref(cn, k, v)
+            r = W.ref(cn, k, v, layout)
+            if r["modified"] and not r.get("modified_reported"):
+                r["modified_reported"] = True
+                fail("oracle", "iso:data-modified", "an isolated %s of %s (parameters %d) on a fresh setup modified the data array it "
+                     "was given (memory layout %s, version %s)" % (r["modified"], cn, k, layout, list(v)))
             if not r["usable"]:
                 unusable = "%s/%d on %s: %s" % (cn, k, list(v), r["why"])
                 continue
-            fsv = int(W.vdata(v)[1])
+            fsv = int(W.vdata(v, layout)[1])
             t1 = "%d,%d,%d,%d" % (CID[cn], pid(cn, k), vid(v), fsv)
             e1 = (t1, "-")
             e2 = (t1, t1 + ",%d" % aid(cn, j))
             for var in r["variants"]:
                 table.setdefault(var["d1"], []).append(e1)
-                table.setdefault(var["mpe"][j]["d2"], []).append(e2)
-                cands += [(var["R1"], var["tol"], e1), (var["mpe"][j]["R2"], var["tol"], e2)]
+                cands.append((var["R1"], var["tol"], e1))
+                if j in var["mpe"]:
+                    table.setdefault(var["mpe"][j]["d2"], []).append(e2)
+                    cands.append((var["mpe"][j]["R2"], var["tol"], e2))
 
     def abstract_result(res, own):
         """the term whose isolated run equals this result; different terms can have equal values (EFDD and FSDD compute
@@ -533,9 +582,9 @@ def execute(job):
     sfs = "-" if ss.fs is None else str(int(ss.fs))
     state = "%s:%s/%s" % (sdata, sfs, ";".join(parts))
 
-    if dg(user_arr) != user_dg:
-        fail("oracle", "data:user-array", "the array handed to SingleSetup was modified in place")
-    if cur_version is not None and (ss.data is None or dg(ss.data) != W.vdata(cur_version)[2]):
+    if (dg(user_arr), dg(owner)) != user_dg:
+        fail("oracle", "data:user-array", "the array handed to SingleSetup (memory layout %s) was modified in place" % layout)
+    if cur_version is not None and (ss.data is None or dg(ss.data) != W.vdata(cur_version, layout)[2]):
         fail("oracle", "data:shared-array", "setup.data is not the record after the preprocessing calls made (%s)" % list(cur_version))
     if list(ss.algorithms) != order:
         fail("oracle", "state:names", "algorithms dict is %s, calls made imply %s" % (list(ss.algorithms), order))
@@ -553,7 +602,7 @@ def execute(job):
             if adata is not None:
                 fail("oracle", "data:binding", "%s holds data although the setup had none when it was added" % nm)
         else:
-            vx, vfs, vdg = W.vdata(b["version"])
+            vx, vfs, vdg = W.vdata(b["version"], layout)
             if adata is None or dg(adata) != vdg or alg.fs != vfs:
                 fail("oracle", "data:binding", "%s.data / fs is not the record bound when it was added (version %s, fs %s): "
                      "another algorithm or a later call changed it" % (nm, list(b["version"]), vfs))
@@ -565,13 +614,13 @@ def execute(job):
             if alg.run_params is not None:
                 fail("oracle", "params:stored", "%s was built without run parameters but now holds some" % nm)
             continue
-        r = W.ref(cn, k, b["version"]) if b["version"] is not None else None
+        r = W.ref(cn, k, b["version"], layout) if b["version"] is not None else None
         if r is not None and not r["usable"]:
             unusable = "%s/%d on %s: %s" % (cn, k, list(b["version"]), r["why"])
             continue
         # run parameters: construction fields never change; mpe fields only by a successful mpe
         rp0 = r["rp0"] if r else {f: dg(v) for f, v in vars(CLASSES[cn].RunParamCls(**copy.deepcopy(PARAMS[cn][k]))).items()}
-        want = r["rp2"][j] if (r and b["mpe_ever"]) else rp0
+        want = r["rp2"][j] if (r and b["mpe_ever"] and j in r.get("rp2", {})) else rp0
         got = {f: dg(v) for f, v in vars(alg.run_params).items()} if alg.run_params is not None else None
         if got != want:
             bad = sorted(f for f in want if got is None or got.get(f) != want[f])
@@ -579,7 +628,7 @@ def execute(job):
         if b["ran"]:
             ran_any = True
             d = dg(alg.result)
-            refs = [((var["mpe"][j]["R2"], var["mpe"][j]["d2"]) if b["modes"] else (var["R1"], var["d1"])) + (var["tol"],)
+            refs = [((var["mpe"][j]["R2"], var["mpe"][j]["d2"]) if (b["modes"] and j in var["mpe"]) else (var["R1"], var["d1"])) + (var["tol"],)
                     for var in r["variants"]]
             if d not in [x[1] for x in refs]:
                 outs = []
@@ -602,7 +651,7 @@ def execute_safe(job):
         return execute(job)
     except Exception:  # noqa: BLE001 - e.g. an implementation state the analysis cannot read: reported, not fatal
         import traceback
-        case = {"lineup": job["lineup"], "start": job["start"], "seq": job["seq"], "dec_at": job.get("dec_at", 0)}
+        case = {"lineup": job["lineup"], "start": job["start"], "seq": job["seq"], "dec_at": job.get("dec_at", 0), "layout": job.get("layout", "C")}
         return dict(raised=[], state="!", unusable=None, nontrivial=False, case=dict(case, calls=[]), crashed=True,
                     fails=[dict(kind="correspondence", key="C15:harness:analysis-crashed", case=case,
                                 what="the history could not be analysed: " + traceback.format_exc()[-800:])])
@@ -624,8 +673,10 @@ def run_jobs(ctx, jobs, nproc):
     return [r for c in res for r in c]
 
 
-def alphabet(lineup, malformed=False):
+def alphabet(lineup, malformed=False, mpe=True):
     n = len(lineup)
+    if not mpe:
+        return [["add", i] for i in range(n)] + [["run", i] for i in range(n)] + [["runall"], ["rebind"], ["saveload"]]
     if malformed:
         return ([["add", i] for i in range(n)] + [["run", 0], ["mpe", 0], ["runall"], ["nodata"], ["nofs"], ["newdata"],
                                                   ["run", UNKNOWN], ["mpe", UNKNOWN]])
@@ -653,7 +704,9 @@ def _check_histories(ctx, jobs, nproc):
     assert len(model) == len(jobs), (len(model), len(jobs))
     for job, rec, m in zip(jobs, recs, model):
         case = rec["case"]
-        ctx.count(dict(lineup=case["lineup"], start=case["start"], seq=case["seq"], dec_at=case["dec_at"]), nontrivial=rec["nontrivial"])
+        ctx.count(dict(lineup=case["lineup"], start=case["start"], seq=case["seq"], dec_at=case["dec_at"], layout=case.get("layout", "C")),
+                  nontrivial=rec["nontrivial"])
+        ctx.hist("memory layout of the record", case.get("layout", "C"))
         ctx.hist("history length", len(job["seq"]))
         if rec["unusable"]:
             ctx.not_judged += 1
@@ -888,20 +941,46 @@ def run(ctx):
                 ctx.fail("oracle", "an isolated run of %s (parameters %d) on a fresh setup gives a different result after other "
                          "algorithms have run in the process: %s" % (cn, k, "; ".join(out)),
                          dict(kind="isolated-rerun", cls=cn, params=PARAMS[cn][k]), key="C15:iso:order-dependence")
+    # SciPy's preprocessing is layout-blind (assumed by eff_layout): same values, same strides, for every layout of the input
+    for lay_ in ("F", "S"):
+        for fn in (lambda x: signal.decimate(x, 2, axis=0), lambda x: signal.detrend(x, axis=0)):
+            u, v = fn(lay(W.base, "C")[0]), fn(lay(W.base, lay_)[0])
+            if not (np.array_equal(u, v) and u.strides == v.strides):
+                raise RuntimeError("scipy preprocessing depends on the memory layout of its input: harness assumption broken")
+    # every class alone on every memory layout of the record: the array handed over must come back untouched
+    single_ok = []
+    for lay_ in LAYOUTS:
+        for cn in CLASSES:
+            for k in (0, 1):
+                watch = []
+                case = dict(kind="isolated-run", cls=cn, params=PARAMS[cn][k], layout=lay_)
+                try:
+                    W.iso(cn, k, (), j=None if lay_ == "1" else 0, layout=lay_, watch=watch)
+                except Exception:  # noqa: BLE001 - single channel: SSI needs more than one channel
+                    if lay_ != "1":
+                        raise
+                    continue
+                ctx.count(case)
+                if lay_ == "1":
+                    single_ok.append((cn, k))
+                if watch:
+                    ctx.fail("oracle", "%s of %s on a fresh setup modified the data array handed to SingleSetup (memory layout %s: %s)" % (
+                        watch[0], cn, lay_, {"C": "C-ordered", "F": "column-major, raw.T of a (n_ch, N) record", "S": "strided view",
+                                              "1": "single channel"}[lay_]), case, key="C15:iso:data-modified")
     nrep = sum(1 for r in W.refs.values() if not r["repro"])
     if nrep:
         ctx.note("%d isolated reference runs are not bit-reproducible: compared at 1e-12 instead of bit for bit" % nrep)
-    nproc = ctx.n(6, 12)
+    nproc = ctx.n(6, 14)
 
     # ---- corpus first
     jobs = []
     for path in sorted(glob.glob(os.path.join(VERIF, "corpus", "C15", "*.json"))):
         for c in json.load(open(path))["cases"]:
-            jobs.append(dict(lineup=c["lineup"], start=c.get("start", []), seq=c["seq"], dec_at=c.get("dec_at", 0)))
+            jobs.append(dict(lineup=c["lineup"], start=c.get("start", []), seq=c["seq"], dec_at=c.get("dec_at", 0), layout=c.get("layout", "C")))
     if ctx.replay:
         c = json.load(open(ctx.replay)).get("case", {})
         if "lineup" in c:
-            jobs.append(dict(lineup=c["lineup"], start=c.get("start", []), seq=c["seq"], dec_at=c.get("dec_at", 0)))
+            jobs.append(dict(lineup=c["lineup"], start=c.get("start", []), seq=c["seq"], dec_at=c.get("dec_at", 0), layout=c.get("layout", "C")))
     if jobs:
         check_histories(ctx, jobs, 1)
 
@@ -924,7 +1003,7 @@ def run(ctx):
         for n, t in enumerate(trip[:8]):
             t = list(t)
             rng.shuffle(t)
-            lineups.append(([entry(x) for x in t], 4 if n < 1 else 3))
+            lineups.append(([entry(x) for x in t], 3))  # length 4 is exhaustive on the two-instance line-ups below
         for x in names:  # every class twice: different parameters / equal parameters
             y = rng.choice([z for z in names if z != x])
             lineups.append(([entry(x, k=0), entry(y), entry(x, k=1)], 3))
@@ -932,21 +1011,45 @@ def run(ctx):
             lineups.append(([[x, kx, 0], [x, kx, 1]], 4 if CID[x] % 2 else 3))
         pairs = list(itertools.permutations(names, 2))
         rng.shuffle(pairs)
-        for (x, y) in pairs[:3]:
+        for (x, y) in pairs[:2]:
             lineups.append(([entry(x), entry(y)], 4))
     jobs = []
-    for lu, maxlen in lineups:
-        alpha = alphabet(lu)
+    turn = rng.randrange(3)
+
+    def enumerate_lineup(lu, maxlen, layouts, sampled, starts=([], [["addall"]]), mpe=True):
+        nonlocal turn
+        alpha = alphabet(lu, mpe=mpe)
         ctx.hist("line-up", "/".join("%s%s" % (e[0], "" if e[1] is None else "#%d" % e[1]) for e in lu))
-        for start in ([], [["addall"]]):
+        for start in starts:
             dec_at = rng.randrange(2)
+            layout = layouts[turn % len(layouts)]
+            turn += 1
             for L in range(1, maxlen + 1):
                 for seq in itertools.product(alpha, repeat=L):
-                    jobs.append(dict(lineup=lu, start=start, seq=[list(s) for s in seq], dec_at=dec_at))
+                    jobs.append(dict(lineup=lu, start=start, seq=[list(s) for s in seq], dec_at=dec_at, layout=layout))
             # sampled longer histories
-            for L, cnt in ((maxlen + 1, ctx.n(150, 800)), (maxlen + 2, ctx.n(150, 800))):
-                for _ in range(cnt):
-                    jobs.append(dict(lineup=lu, start=start, seq=[list(rng.choice(alpha)) for _ in range(L)], dec_at=dec_at))
+            for L in (maxlen + 1, maxlen + 2):
+                for _ in range(sampled):
+                    jobs.append(dict(lineup=lu, start=start, seq=[list(rng.choice(alpha)) for _ in range(L)], dec_at=dec_at, layout=layout))
+
+    for lu, maxlen in lineups:  # the record's memory layout rotates over C-ordered / column-major / strided view
+        enumerate_lineup(lu, maxlen, ("C", "F", "S"), ctx.n(150, 800))
+    # ---- every layout with a spectral class (FDD family) next to a mean-sensitive one (SSI on all channels), and the
+    # single-channel record with the classes that run on it (no modes there): a working copy that is really a view
+    spectral = ["FDD", "EFDD", "FSDD"]
+    for lay_ in ("F", "S"):
+        for x in (rng.sample(spectral, 1) if ctx.quick() else spectral):
+            for y in ([rng.choice(["SSIcov", "SSIdat"])] if ctx.quick() else ["SSIcov", "SSIdat"]):
+                lu = [entry(x), [y, 0, rng.randrange(2)]]
+                if rng.random() < 0.5:
+                    lu.reverse()
+                enumerate_lineup(lu, ctx.n(2, 3), (lay_,), ctx.n(120, 300))
+    ones = [c for c in single_ok if c[0] in spectral]
+    for rep_ in range(ctx.n(1, 3)):
+        if ones:
+            pick = [list(rng.choice(ones)) + [0] for _ in range(2)] + [list(c) + [0] for c in single_ok if c[0] not in spectral][:1]
+            rng.shuffle(pick)
+            enumerate_lineup(pick, ctx.n(2, 3), ("1",), ctx.n(100, 300), mpe=False)
     # ---- malformed stream: no data / no fs / unknown names / an algorithm built without run parameters
     mal = []
     x, y = rng.sample(names, 2)
